@@ -601,7 +601,7 @@ func rulesC12(c *Ctx) {
 		clientMethods := map[string]bool{}
 		inspectNoLit(en.Body, func(n ast.Node) {
 			if cc, ok := n.(*ast.CaseClause); ok {
-				for _, e := range cc.List {
+				for _, e := range caseValues(cc) {
 					if s, ok := en.ConstString(e); ok {
 						clientMethods[s] = true
 					}
@@ -804,7 +804,11 @@ func rulesC12(c *Ctx) {
 			if !ok {
 				return
 			}
-			cl, isLit := ast.Unparen(rs.X).(*ast.CompositeLit)
+			src := cpf.valueOf(rs.X)
+			if t := c.constTable(pM, cpf.ObjOf(src)); t != nil {
+				src = t // a package-level table nothing writes to
+			}
+			cl, isLit := ast.Unparen(src).(*ast.CompositeLit)
 			if !isLit {
 				return
 			}
